@@ -11,6 +11,21 @@ STORED = ['a1b2c3d4', '0123456789abcdef0123456789abcdef', 'Tok-En', 'x']
 TOKEN_NAMES = ['csrf_token', 'tok', None, '']
 HEADER_NAMES = ['X-CSRF-Token', 'X-Tok', None, '', 'x-csrf-token', 'Referer']
 SAFE_SETS = [['GET', 'HEAD', 'OPTIONS', 'TRACE'], ['GET'], [], ['GET', 'POST'], ['get', 'HEAD']]
+# values that are not bool where the code tests truth / identity: label -> Python value (harness/c12/prop.py:pyval)
+NONBOOL = {'int0': 0, 'int1': 1, 'none': None, 'str': 'yes', 'empty': ''}
+EXPLICIT_OTHER = ['other', 'int0', 'int1', 'empty']          # require_csrf= view option that is neither True nor False
+CALLBACKS = ['true', 'false', 'auth', 'auth', 'ret-none', 'ret-0', 'ret-1', 'ret-str', 'ret-list']
+SAFE_KINDS = ['tuple', 'tuple', 'list', 'set', 'frozenset', 'gen', 'iter']
+
+
+def pyval(x):
+    return NONBOOL[x] if isinstance(x, str) and x in NONBOOL else x
+
+
+def gen_flag(rng, p_true):
+    if rng.random() < 0.12:
+        return rng.choice(sorted(NONBOOL))
+    return rng.random() < p_true
 
 
 def ascii_lower(s):
@@ -23,24 +38,25 @@ def ascii_upper(s):
 
 def gen_config(rng, hostpool):
     r = rng.random()
-    explicit = True if r < 0.45 else None if r < 0.8 else False if r < 0.92 else 'other'
+    explicit = True if r < 0.45 else None if r < 0.8 else False if r < 0.9 else rng.choice(EXPLICIT_OTHER)
     defaults = None
     if rng.random() < 0.65:
         defaults = {}
         if rng.random() < 0.6:
-            defaults['require_csrf'] = rng.random() < 0.8
+            defaults['require_csrf'] = gen_flag(rng, 0.8)
         if rng.random() < 0.3:
             defaults['token'] = rng.choice(TOKEN_NAMES)
         if rng.random() < 0.3:
             defaults['header'] = rng.choice(HEADER_NAMES)
         if rng.random() < 0.3:
             defaults['safe_methods'] = list(rng.choice(SAFE_SETS))
+            defaults['safe_kind'] = rng.choice(SAFE_KINDS)
         if rng.random() < 0.35:
-            defaults['check_origin'] = rng.random() < 0.6
+            defaults['check_origin'] = gen_flag(rng, 0.6)
         if rng.random() < 0.4:
-            defaults['allow_no_origin'] = rng.random() < 0.6
+            defaults['allow_no_origin'] = gen_flag(rng, 0.6)
         if rng.random() < 0.3:
-            defaults['callback'] = rng.choice(['true', 'false', 'auth', 'auth'])
+            defaults['callback'] = rng.choice(CALLBACKS)
     settings = None
     r = rng.random()
     if r < 0.45:
@@ -59,6 +75,10 @@ def gen_config(rng, hostpool):
         cfg['program'] = {'order': order, 'depth': depth}
         if cfg['storage'] == 'legacy' and rng.random() < 0.5:
             cfg['program']['default_policy'] = True
+    if rng.random() < 0.3:
+        # other views of the same application, derived with their own require_csrf (before / after the one under test)
+        cfg['decoys'] = [{'explicit': rng.choice([True, False, None, True, False]), 'pos': rng.choice(['before', 'after'])}
+                         for _ in range(rng.choice([1, 2, 3]))]
     return cfg
 
 
@@ -196,6 +216,8 @@ def gen_request(rng, cfg, hostpool, prev):
         stored = rng.choice(['\ud800', 'a\udfffb'])      # not encodable: outside the property (wf_tokens), model still checked
     if storage == 'cookie' and stored is not None:
         stored = ''.join(c for c in stored if c in COOKIE_SAFE)
+        if rng.random() < 0.15:
+            r['cookie_quoted'] = True            # Cookie: csrf_token="<value>"  (incl. the empty quoted value)
     r['stored'] = stored
     base = stored if stored and not any(0xD800 <= ord(c) <= 0xDFFF for c in stored) else rng.choice(STORED)
     k = rng.random()
@@ -270,7 +292,12 @@ def gen_case(rng):
     reqs = []
     for _ in range(n):
         reqs.append(gen_request(rng, cfg, hostpool, reqs))
-    return {'config': cfg, 'caller': caller, 'raises': rng.random() < 0.5, 'reqs': reqs}
+    case = {'config': cfg, 'caller': caller, 'raises': rng.random() < 0.5, 'reqs': reqs}
+    if caller is not None and rng.random() < 0.3:
+        case['caller_kind'] = 'tuple'
+    if rng.random() < 0.3:
+        case['via'] = 'session'                  # the deprecated aliases pyramid.session.check_csrf_token / _origin
+    return case
 
 
 # ------------------------------------------------------------ targeted search (broken tie, nothing failed yet)
